@@ -10,6 +10,12 @@ use syn::spanned::Spanned;
 const U64: Ty = Ty::Int(IntTy::U64);
 const USIZE: Ty = Ty::Int(IntTy::Usize);
 
+/// rule 29 / C-PTRCAST: a pointer cast is the identity only when the pointee stays a limb
+fn limb_ptr_type(t: &syn::Type) -> bool {
+    let s: String = quote::quote!(#t).to_string().chars().filter(|c| !c.is_whitespace()).collect();
+    matches!(s.as_str(), "*constbigint::Limb" | "*mutbigint::Limb" | "*constLimb" | "*mutLimb")
+}
+
 fn is_stable(t: &str) -> bool {
     is_numeral(t) || (t.starts_with('t') && t.len() > 1 && t[1..].chars().all(|c| c.is_ascii_digit()))
 }
@@ -63,7 +69,12 @@ impl<'a> Cx<'a> {
         match e {
             syn::Expr::Paren(p) => self.lower_ptr(&p.expr),
             syn::Expr::Group(p) => self.lower_ptr(&p.expr),
-            syn::Expr::Cast(c) if matches!(&*c.ty, syn::Type::Ptr(_)) => self.lower_ptr(&c.expr),
+            syn::Expr::Cast(c) if matches!(&*c.ty, syn::Type::Ptr(_)) => {
+                if !limb_ptr_type(&c.ty) {
+                    return err(e.span(), "a pointer cast to another element type (only `*const` / `*mut` `[bigint::]Limb` keeps the cell arithmetic)");
+                }
+                self.lower_ptr(&c.expr)
+            }
             syn::Expr::Path(p) if p.path.get_ident().is_some() => {
                 let n = p.path.get_ident().unwrap().to_string();
                 match self.lookup(&n) {
@@ -90,6 +101,9 @@ impl<'a> Cx<'a> {
                             }
                         }
                         err(e.span(), format!("`{}()` on something other than a raw vector / a slice parameter", name))
+                    }
+                    ("add", 1) if matches!(crate::expr::strip_ref(&m.receiver), syn::Expr::Cast(_)) => {
+                        err(e.span(), "`add` on a casted pointer (the element size of the offset would not be checked)")
                     }
                     ("add", 1) => match self.lower_ptr(&m.receiver)? {
                         Ptr::Own { var, off } if off == "0" => {
